@@ -1,10 +1,52 @@
 (* Property C20: string formatting is total and faithful to the format directive.
-   Statements only; the proofs are in Proofs/FormatProofs.v, the model in Model/Format.v. *)
+   Statements only; the proofs are in Proofs/Format{Proofs,Width,Total,Radix}.v, the model in
+   Model/Format.v (one Gallina function per Go method; oracles for strconv float digits, quoting
+   beyond plain ASCII, Unicode case mapping, int64<->float64 and nested container types). *)
 From Coq Require Import String.
 From Coq Require Import ZArith NArith Bool List.
-From PcoreV Require Import Model.Base Model.Format Proofs.FormatProofs.
+From PcoreV Require Import Model.Base Model.Format.
+From PcoreV Require Import Proofs.FormatProofs Proofs.FormatWidth Proofs.FormatTotal Proofs.FormatRadix Proofs.FormatNoFault.
 Import ListNotations.
 Open Scope Z_scope.
+
+Definition o0 : oracle := mkOracle [] [] [] [] [] [] [].
+
+(* --- formatting is total --------------------------------------------------------------------- *)
+
+(* for every oracle, every value (scalars, arrays, hashes, nested to any depth) and every format
+   specification (default, any string, any per-type map nested to any depth) formatting returns a
+   text or an error class: the fuel of the container recursion and of mergeFormats always suffices *)
+Theorem C20_format_total :
+  forall (o : oracle) (v : value) (spec : fspec), exists r, format_value o v spec = Some r.
+Proof. exact format_total. Qed.
+Print Assumptions C20_format_total.
+
+Example C20_total_ex :
+  format_value o0 (VArr [VInt 1; VArr [VStr (lit "a"); VUndef]; VHash [(VStr (lit "k"), VBool true)]]) FDefault
+  = Some (OText (lit "[1, ['a', undef], {'k' => true}]"))
+  /\ format_value o0 (VHash [(VStr (lit "a"), VInt 10)])
+                  (FMap [(KHash, FEHash (lit "%<h") (Some (lit ";")) (Some (lit ":")) (Some [(KInteger, FEStr (lit "%#x"))]))])
+     = Some (OText (lit "<'a':0xa>"))
+  /\ format_value o0 (VInt 5) (FMap [(KInteger, FEStr (lit "%--d"))]) = Some (OErr ERepeatedFlag).
+Proof. vm_compute. repeat split. Qed.
+
+(* no runtime fault escapes: the explicit fault sites of the model (index into an empty string in
+   fmt.fmtFloat and floatGFormat, a second numeric conversion, a container handed to a scalar's
+   ToString) are unreachable for every value and specification, provided no digit string of the
+   oracle is empty or a bare sign (strconv.FormatFloat never returns one) *)
+Theorem C20_no_fault :
+  forall (o : oracle) (v : value) (spec : fspec) (r : obs),
+    oracle_ok o -> format_value o v spec = Some r -> r <> OErr EFault.
+Proof. exact no_fault. Qed.
+Print Assumptions C20_no_fault.
+
+Example C20_no_fault_ex :
+  let o := mkOracle [] [] [] [((4615063718147915776, 102%N, 2), lit "3.50")] [] [] [] in
+  oracle_ok o /\ format_value o (VFloat 4615063718147915776) (FStr (lit "%+08.2f")) = Some (OText (lit "+0003.50")).
+Proof.
+  split; [|vm_compute; reflexivity].
+  intros k ds [H|[]]. injection H as _ <-. split; discriminate.
+Qed.
 
 (* --- the unsupported-format error is raised exactly outside the documented set ------------- *)
 
@@ -21,7 +63,7 @@ Print Assumptions C20_unsupported_iff_outside_set.
 
 (* the same through px.NewFormatContext3(value, directive) + ToString, for every directive string of
    the grammar (parse_format succeeds).  Float NaN is excluded: its inferred type Float[NaN, NaN]
-   does not accept itself, so the directive is not the format that GetFormat selects (see design notes) *)
+   does not accept itself, so the directive is not the format that GetFormat selects (design notes) *)
 Theorem C20_unsupported_iff_directive :
   forall (o : oracle) (v : value) (s : str) (f : format) (c : N) (k : kind),
     is_container v = false -> is_nan_value v = false -> parse_format s None None CfNone = ROk f ->
@@ -31,10 +73,10 @@ Proof. exact unsupported_iff_directive. Qed.
 Print Assumptions C20_unsupported_iff_directive.
 
 Example C20_unsupported_ex :
-  format_value (mkOracle [] [] [] [] [] [] []) (VInt 5) (FStr (lit "%-8q")) = Some (OErr (EUnsupported 113 KdInteger))
-  /\ format_value (mkOracle [] [] [] [] [] [] []) (VInt 255) (FStr (lit "%#010x")) = Some (OText (lit "0x00000000ff"))
-  /\ format_value (mkOracle [] [] [] [] [] [] []) (VStr (lit "ab")) (FStr (lit "%-5s|")) = Some (OErr EInvalidSpec)
-  /\ format_value (mkOracle [] [] [] [] [] [] []) (VStr (lit "ab")) (FStr (lit "%-5p")) = Some (OText (lit "'ab' ")).
+  format_value o0 (VInt 5) (FStr (lit "%-8q")) = Some (OErr (EUnsupported 113 KdInteger))
+  /\ format_value o0 (VInt 255) (FStr (lit "%#010x")) = Some (OText (lit "0x00000000ff"))
+  /\ format_value o0 (VStr (lit "ab")) (FStr (lit "%-5s|")) = Some (OErr EInvalidSpec)
+  /\ format_value o0 (VStr (lit "ab")) (FStr (lit "%-5p")) = Some (OText (lit "'ab' ")).
 Proof. vm_compute. repeat split. Qed.
 
 (* --- radix renderings convert back ----------------------------------------------------------- *)
@@ -48,7 +90,141 @@ Theorem C20_digits_roundtrip :
 Proof. exact digits_roundtrip. Qed.
 Print Assumptions C20_digits_roundtrip.
 
-Example C20_digits_ex :
+(* lifted to the Integer constructor with radix (Convertible pattern, prefix that agrees with the
+   radix, strconv.ParseInt): for every int64 n and every format with letter d x X o b B, with or
+   without '#', with or without '+' (no width, precision or space flag), the text that Integer n
+   renders to is converted back to n by Integer.new(text, radix of the letter) *)
+Theorem C20_radix_roundtrip :
+  forall (o : oracle) (f : format) (n : Z) (t : str),
+    plain_format f -> in_int64 n = true -> mem (f_char f) l_dxXobB = true ->
+    render_scalar o f (VInt n) = OText t -> int_new t (radix_of (f_char f)) = Some n.
+Proof. exact radix_roundtrip. Qed.
+Print Assumptions C20_radix_roundtrip.
+
+Theorem C20_radix_roundtrip_directive :
+  forall (o : oracle) (s : str) (f : format) (n : Z) (t : str),
+    parse_format s None None CfNone = ROk f -> plain_format f -> in_int64 n = true ->
+    mem (f_char f) l_dxXobB = true ->
+    format_value o (VInt n) (FStr s) = Some (OText t) -> int_new t (radix_of (f_char f)) = Some n.
+Proof. exact radix_roundtrip_directive. Qed.
+Print Assumptions C20_radix_roundtrip_directive.
+
+Example C20_radix_ex :
   digits 16 true 9223372036854775808 = lit "8000000000000000"
-  /\ int_new (lit "-0x8000000000000000") 16 = Some (-9223372036854775808).
-Proof. vm_compute. split; reflexivity. Qed.
+  /\ format_value o0 (VInt (-9223372036854775808)) (FStr (lit "%#x")) = Some (OText (lit "-0x8000000000000000"))
+  /\ int_new (lit "-0x8000000000000000") 16 = Some (-9223372036854775808)
+  /\ format_value o0 (VInt 5) (FStr (lit "%#+B")) = Some (OText (lit "+0B101"))
+  /\ int_new (lit "+0B101") 2 = Some 5
+  /\ (exists f, parse_format (lit "%#+B") None None CfNone = ROk f /\ plain_format f /\ mem (f_char f) l_dxXobB = true).
+Proof.
+  vm_compute. repeat split; try reflexivity.
+  eexists. split; [reflexivity|]. vm_compute. repeat split; auto.
+Qed.
+
+(* --- width and padding side ------------------------------------------------------------------ *)
+
+(* every scalar rendering that does not pass through fmt's float verbs (Integer/Float/Boolean under
+   e E f g G a A, whose digits are strconv's) is at least as wide, in runes, as the format asks *)
+Theorem C20_width_respected_partial :
+  forall (o : oracle) (f : format) (v : value) (t : str),
+    is_container v = false -> float_path v (f_char f) = false ->
+    render_scalar o f v = OText t -> f_width f <= rlen t.
+Proof. exact width_respected. Qed.
+Print Assumptions C20_width_respected_partial.
+(* partial: the renderings under e E f g G a A are excluded (digit strings are an oracle); their
+   sign / zero padding / width shape is tied by the correspondence and the direct check only *)
+
+(* the same through NewFormatContext3(value, directive string).  Guarded: Float NaN is excluded, see
+   the open finding below; the unguarded statement is C20_statement_width_directive *)
+Theorem C20_width_respected_directive_partial :
+  forall (o : oracle) (v : value) (s : str) (f : format) (t : str),
+    is_container v = false -> is_nan_value v = false -> float_path v (f_char f) = false ->
+    parse_format s None None CfNone = ROk f ->
+    format_value o v (FStr s) = Some (OText t) -> f_width f <= rlen t.
+Proof. exact width_respected_directive. Qed.
+Print Assumptions C20_width_respected_directive_partial.
+
+Definition C20_statement_width_directive : Prop :=
+  forall (o : oracle) (v : value) (s : str) (f : format) (t : str),
+    is_container v = false -> float_path v (f_char f) = false ->
+    parse_format s None None CfNone = ROk f ->
+    format_value o v (FStr s) = Some (OText t) -> f_width f <= rlen t.
+
+(* open finding nan-directive-ignored: '%10d' of NaN renders "NaN" (the model follows the code:
+   Float[NaN, NaN] does not accept itself, GetFormat falls back to %s) *)
+Theorem C20_nan_directive_ignored_refuted : ~ C20_statement_width_directive.
+Proof.
+  intros H.
+  specialize (H (mkOracle [] [] [] [((9221120237041090561, 103%N, -1), lit "NaN")] [] [] [])
+                (VFloat 9221120237041090561) (lit "%10d")
+                (mkFormat false false false 100 0 (-1) 10 0 None None CfNone) (lit "NaN")
+                eq_refl eq_refl eq_refl eq_refl).
+  vm_compute in H. apply H. reflexivity.
+Qed.
+Print Assumptions C20_nan_directive_ignored_refuted.
+
+(* ApplyStringFlags (every value kind's %s %p %c %t ... family): the text under width w is the text
+   without width padded with spaces to w runes, on the right under '-', on the left otherwise *)
+Theorem C20_padding_side_string_flags :
+  forall (o : oracle) (f : format) (s : str) (quoted : bool) (t : str),
+    apply_string_flags o f s quoted = OText t ->
+    exists t0, apply_string_flags o (set_width f (-1)) s quoted = OText t0 /\ padded (f_left f) (f_width f) t0 t.
+Proof. exact padding_side_string_flags. Qed.
+Print Assumptions C20_padding_side_string_flags.
+
+(* the integer verbs d x X o b: under '-' or without the '0' flag, the same statement *)
+Theorem C20_padding_side_integer :
+  forall (f : format) (verb : N) (n : Z),
+    (f_left f = true \/ f_zero f = false) ->
+    padded (f_left f) (f_width f) (go_fmt_int (set_width f (-1)) verb n) (go_fmt_int f verb n).
+Proof. exact padding_side_integer. Qed.
+Print Assumptions C20_padding_side_integer.
+
+Example C20_width_ex :
+  format_value o0 (VStr (lit "héllo")) (FStr (lit "%-8.3s")) = Some (OText (lit "hél     "))
+  /\ format_value o0 (VInt (-42)) (FStr (lit "%08d")) = Some (OText (lit "-0000042"))
+  /\ format_value o0 (VInt (-42)) (FStr (lit "%-8d")) = Some (OText (lit "-42     "))
+  /\ format_value o0 VUndef (FStr (lit "%10s")) = Some (OText (lit "     undef")).
+Proof. vm_compute. repeat split. Qed.
+
+(* --- containers are rendered recursively ------------------------------------------------------- *)
+
+(* Array: under the format f that GetFormat selects (letter a, s or p; not alternate; outside an
+   indenting context), if every element renders to a text - containers under the parent's format
+   map, scalars under the container formats of f or the default ones - the array renders to left
+   delimiter, those texts joined by separator and space, right delimiter *)
+Theorem C20_array_recursive :
+  forall n o ind m es f ts,
+    get_format o m (VArr es) = ROk f -> mem (f_char f) set_array = true ->
+    f_alt f = false -> i_indenting ind = false ->
+    Forall2 (fun e t => render n o (i_subsequent (i_increase (i_set_indenting ind false) false))
+                               (if is_container e then m else cf_or_default f) false e = Some (OText t)) es ts ->
+    render (S n) o ind m false (VArr es) =
+    Some (OText (opt_byte (fst (delim_pair (if N.eqb (f_delim f) 0 then 91%N else f_delim f))) ++
+                 join (sep_or (f_sep f) s_comma ++ [32%N]) ts ++
+                 opt_byte (snd (delim_pair (if N.eqb (f_delim f) 0 then 91%N else f_delim f))))).
+Proof. exact array_recursive. Qed.
+Print Assumptions C20_array_recursive.
+
+(* Hash (letters h s p): key text, association separator, value text per entry *)
+Theorem C20_hash_recursive :
+  forall n o ind m es f ts,
+    get_format o m (VHash es) = ROk f -> N.eqb (f_char f) 97 = false -> mem (f_char f) l_hsp = true ->
+    f_alt f = false -> i_indenting ind = false ->
+    Forall2 (fun kv t =>
+               render n o (i_increase (i_set_indenting ind false) false)
+                      (if is_container (fst kv) then m else cf_or_default f) false (fst kv) = Some (OText (fst t)) /\
+               render n o (i_increase (i_set_indenting ind false) false)
+                      (if is_container (snd kv) then m else cf_or_default f) false (snd kv) = Some (OText (snd t))) es ts ->
+    render (S n) o ind m false (VHash es) =
+    Some (OText (opt_byte (fst (delim_pair (if N.eqb (f_delim f) 0 then 123%N else f_delim f))) ++
+                 join (sep_or (f_sep f) s_comma ++ [32%N]) (map (fun kv => fst kv ++ sep_or (f_sep2 f) s_arrow ++ snd kv) ts) ++
+                 opt_byte (snd (delim_pair (if N.eqb (f_delim f) 0 then 123%N else f_delim f))))).
+Proof. exact hash_recursive. Qed.
+Print Assumptions C20_hash_recursive.
+
+Example C20_container_ex :
+  format_value o0 (VArr [VInt 10; VInt 255]) (FMap [(KArray, FEHash (lit "%(a") (Some (lit ";")) None (Some [(KInteger, FEStr (lit "%x"))]))])
+  = Some (OText (lit "(a; ff)"))
+  /\ format_value o0 (VHash [(VInt 1, VArr [VInt 2])]) (FStr (lit "%#h")) <> None.
+Proof. vm_compute. split; [reflexivity | discriminate]. Qed.
